@@ -173,7 +173,11 @@ def run_case(case):
         except _Viol as v:
             r = viol("%s|%s|%s" % (v.aspect, read["op"], opsig), v.detail, labels=labels)
         except Exception as e:
-            r = viol("read_raised|%s|%s|%s" % (read["op"], opsig, exc_sig(e)), exc_detail(e), labels=labels)
+            from vf.finding_predicates import drill_mixed_labels
+            if opts.get("file_scheme") == "drill" and case["partition_on"] and "is not in list" in str(e) and drill_mixed_labels(case):
+                r = discard("drill labels mixing text and numbers (recorded finding C08-drill-mixed-text)", labels)
+            else:
+                r = viol("read_raised|%s|%s|%s" % (read["op"], opsig, exc_sig(e)), exc_detail(e), labels=labels)
         finally:
             if fobj:
                 fobj.close()
